@@ -8,7 +8,7 @@ from .. import canon, gen
 from ..core import call_real
 
 ID = "C10"
-LEAN_MODULE = "CKT.Props.C10"
+LEAN_MODULE = "CKT.Props.C10Sem"
 THEOREMS = [
     "CKT.C10.qubitMap_spec", "CKT.C10.qubitsOf_sorted_nodup", "CKT.C10.mem_qubitsOf",
     "CKT.C10.splitBarriers_non_barrier", "CKT.C10.splitBarriers_qubits",
@@ -16,16 +16,42 @@ THEOREMS = [
     "CKT.C10.combineBarriers_non_tagged", "CKT.C10.combineBarriers_no_tag_left",
     "CKT.C10.separate_refuses_length", "CKT.C10.separate_ok_labels",
     "CKT.C10.numberCuts_labels", "CKT.C10.splitHalves_pairs",
+    # semantic half: recomposition through the qubit map, for every semantics with commuting disjoint instructions (C10Sem)
+    "CKT.C10Sem.run_flatMap_grp", "CKT.C10Sem.lifted_sub", "CKT.C10Sem.separate_recompose",
 ]
 RULE = ("circuits on 1-6 qubits over every gate family, several registers, barriers of every span, idle qubits, pre-placed cut gates; label "
         "sequences over arbitrary hashables incl. None for idle (and, as malformed input, non-idle) qubits, and automatic labelling; Pauli "
         "lists incl. non-identity on idle qubits; non-trivial = at least two partitions or a barrier; distinct by payload")
 ASSUMPTIONS = ["QuantumCircuit.decompose (DAG round trip) may re-linearise instructions on disjoint wires: partition_problem subcircuits are compared per wire",
-               "rustworkx.connected_components is modelled by label propagation", "uuid barrier tags are renamed by first occurrence"]
+               "rustworkx.connected_components is modelled by label propagation", "uuid barrier tags are renamed by first occurrence",
+               "T10.4 (`separate_recompose`) is proved for every semantics in which instructions on disjoint qubits commute and barriers do nothing "
+               "(`C10Sem.CommSem`); that Qiskit's semantics obeys these two laws is standard and not proved in Lean (simulated in the failing-input search)"]
+
+
+def _same_name_cuts(rng):
+    """two (or three) gates of one name but different parameters / matrices, all spanning partitions, in one call"""
+    fam = rng.choice([("rzz", [[0.3], [1.2], [-2.0]]), ("cry", [[0.5], [2.1], [7.0]]), ("crx", [[0.4], [-1.1], [3.0]]),
+                      ("unitary", [[11, 2], [12, 2], [13, 2]]), ("rxx", [[0.25], [1.75], [3.5]])])
+    nq = rng.randint(2, 4)
+    labels = [q % 2 for q in range(nq)]
+    instrs = [gen.rand_1q(rng, q) for q in range(nq)]
+    for params in fam[1][: rng.randint(2, 3)]:
+        a = rng.randrange(nq - 1)
+        qs = [a, a + 1] if rng.random() < 0.5 else [a + 1, a]
+        instrs.append({"name": fam[0], "qubits": qs, "params": list(params)})
+        instrs.append(gen.rand_1q(rng, rng.randrange(nq)))
+    return {"nq": nq, "qregs": [nq], "instrs": instrs, "labels": labels, "pool_idx": rng.sample(range(len(gen.LABEL_POOL)), 2),
+            "obs": gen.rand_paulis(rng, nq, 2), "bases": [], "cregs": [], "prewarm": False}
 
 
 def cases(rng, tier):
     N = 150 if tier == "quick" else 2500
+    for k in range(4 if tier == "quick" else 40):
+        p = _same_name_cuts(rng)
+        if k % 2:
+            yield ("partition_circuit_qubits", dict(p, obs=None))
+        else:
+            yield ("partition_problem", p)
     for _ in range(N):
         nq = rng.randint(1, 6)
         nidle = rng.choice([0, 0, 0, 1, 2]) if nq > 1 else 0
